@@ -246,3 +246,103 @@ func (f *Flagged) Eval(row []any) (any, error) {
 	}
 	return f.Child.Eval(row)
 }
+
+// ---- E4: NULL in, NULL out
+
+// BinGood: NULL when either argument is NULL, nullable when either is.
+type BinGood struct{ Left, Right Expression }
+
+func (b *BinGood) IsNullable() bool { return b.Left.IsNullable() || b.Right.IsNullable() }
+func (b *BinGood) Eval(row []any) (any, error) {
+	l, err := b.Left.Eval(row)
+	if err != nil {
+		return nil, err
+	}
+	if l == nil {
+		return nil, nil
+	}
+	r, err := b.Right.Eval(row)
+	if err != nil {
+		return nil, err
+	}
+	if r == nil {
+		return nil, nil
+	}
+	return l, nil
+}
+
+func isNullType(e Expression) bool { return e == nil }
+
+// FormatLike: reports the nullability of the OTHER argument only.
+type FormatLike struct{ Left, Right Expression }
+
+func (f *FormatLike) IsNullable() bool {
+	if isNullType(f.Left) {
+		if isNullType(f.Right) {
+			return true
+		}
+		return f.Right.IsNullable()
+	}
+	return f.Left.IsNullable()
+}
+
+func (f *FormatLike) Eval(row []any) (any, error) {
+	l, err := f.Left.Eval(row)
+	if err != nil {
+		return nil, err
+	}
+	if l == nil {
+		return nil, nil
+	}
+	r, err := f.Right.Eval(row)
+	if err != nil {
+		return nil, err
+	}
+	if r == nil {
+		return nil, nil
+	}
+	return l, nil
+}
+
+// BothNeeded: nullable only when both arguments are.
+type BothNeeded struct{ Left, Right Expression }
+
+func (b *BothNeeded) IsNullable() bool { return b.Left.IsNullable() && b.Right.IsNullable() }
+func (b *BothNeeded) Eval(row []any) (any, error) {
+	l, err := b.Left.Eval(row)
+	if err != nil {
+		return nil, err
+	}
+	r, err := b.Right.Eval(row)
+	if err != nil {
+		return nil, err
+	}
+	if r == nil {
+		return nil, nil
+	}
+	return l, nil
+}
+
+// ViaChildren: consults its children through a collection: not decided.
+type ViaChildren struct{ A, B Expression }
+
+func (v *ViaChildren) Children() []Expression { return []Expression{v.A, v.B} }
+func (v *ViaChildren) IsNullable() bool {
+	for _, ch := range v.Children() {
+		if ch.IsNullable() {
+			return true
+		}
+	}
+	return false
+}
+
+func (v *ViaChildren) Eval(row []any) (any, error) {
+	a, err := v.A.Eval(row)
+	if err != nil {
+		return nil, err
+	}
+	if a == nil {
+		return nil, nil
+	}
+	return v.B.Eval(row)
+}
